@@ -391,7 +391,13 @@ impl State {
         if kind.is_none() {
             if let Some(from) = self.disk_full_from {
                 if idx >= from && matches!(class, Class::Write | Class::Mkdir) {
-                    kind = Some(FaultKind::Enospc);
+                    // the disk fills up in the middle of the first affected write: part of its
+                    // bytes are written, the rest (and everything later) is refused
+                    kind = Some(if idx == from && class == Class::Write {
+                        FaultKind::Short
+                    } else {
+                        FaultKind::Enospc
+                    });
                 }
             }
         }
